@@ -360,7 +360,23 @@ def check_history(cfg, run) -> List[tuple]:
     if close_call is not None and keepers:
         for item, tr in sent_ret.items():
             if tr < close_call and item not in seen:
-                out.append(("O2", "item-lost", f"send of {item} returned at {tr} before close() at {close_call} but it was never received"))
+                kind = "item-lost"
+                if disturbed and outcome.get(disturbed) in ("cancelled", "timeout") and disturbed_at is not None:
+                    # was the disturbed receiver blocked in a receive when this send completed (so that the item woke IT),
+                    # and disturbed before it could run?  Then another receiver may have seen done() while the item counted
+                    # as spoken for -- the recorded design-level finding, keyed by this shape only
+                    calls = [e for e in ev if e[2] == disturbed and e[3] in ("receive", "anext")]
+                    open_at_tr = False
+                    for ci, e in enumerate(calls):
+                        if e[1] == "call" and e[0] < tr:
+                            ret = next((x for x in calls[ci + 1:] if x[1] == "ret"), None)
+                            if ret is None or ret[0] > tr:
+                                open_at_tr = ret is None or not isinstance(ret[4], (list, tuple))
+                    got_after = any(t > tr and who == disturbed for t, who, _ in recv)
+                    surfaced = next((e[0] for e in ev if e[1] == "ret" and e[2] == disturbed and e[3] == "exc"), None)
+                    if open_at_tr and not got_after and surfaced is not None and surfaced > tr:
+                        kind = "item-lost-woken-receiver-was-disturbed"
+                out.append(("O2", kind, f"send of {item} returned at {tr} before close() at {close_call} but it was never received"))
     # O3
     last = {}
     for t, who, item in recv:
